@@ -61,6 +61,7 @@ EXC_PARENTS = {
     "Empty": "Exception",
     "CallbackError": "Exception",
     "Full": "Exception",
+    "BodyError": "Exception",
     "WorkerFailedError": "Exception",
     "Exception": "BaseException",
     "KeyboardInterrupt": "BaseException",
